@@ -1,7 +1,7 @@
 SPECIFICATION Spec
-CONSTANT MaxN = 5
+CONSTANT MaxN = 4
 CONSTANT Small = TRUE
-CONSTANT Rich = FALSE
+CONSTANT Rich = TRUE
 INVARIANT TypeOK
 INVARIANT UAFNeedsDelete
 INVARIANT UAFNever404
